@@ -54,7 +54,7 @@ def swap_names(text, a, b, quoted=False):
     return re.sub(r"\b(%s|%s)\b" % (a, b), lambda m: b if m.group(1) == a else a, text)
 
 
-STRING_BODIES = ['%s\\"', '\\"%s', 'a\\"%s\\\\', '%s\\\\', "%s'", '\\"']
+STRING_BODIES = ['%s\\"', '\\"%s', 'a\\"%s\\\\', '%s\\\\', "%s'", '\\"', "'%s'", "''", "'", " %s ", "%s#", "//%s", "/*%s*/"]
 
 
 def string_twin(text, exp, k):
